@@ -63,7 +63,12 @@ func (v *vigil) BeginVigil() {
 }
 
 func (v *vigil) CeaseVigil() {
+	// Decrement under the condition variable's mutex: a waiter that has just seen a positive
+	// count holds the mutex until cond.Wait has registered it, so this decrement (and the
+	// Broadcast that follows) can no longer fall between its check and its Wait and get lost.
+	v.mu.Lock()
 	atomic.AddInt64(&v.vigils, -1)
+	v.mu.Unlock()
 	if verifhook.Enabled {
 		verifhook.Point("vigil.dec", v)
 	}
